@@ -22,6 +22,8 @@ pub fn program(cls: &str, d: i64, s: i64) -> String {
         "session" => format!("stream S = A\n    .window(session: {d}s)\n{agg}"),
         "seq2" => "stream S = A as a\n    -> B as b\n    .emit(ai: a.id, bi: b.id)\n".into(),
         "seq3ref" => "stream S = A as a\n    -> B where x == a.x as b\n    -> C as c\n    .emit(ai: a.id, bi: b.id, ci: c.id)\n".into(),
+        // same program; the harness repeats every B of the case 8 times, so runs reach the engine's built-in cap of 20 Kleene events
+        "kleene_long" => "stream S = A as a\n    -> all B as b\n    -> C as c\n    .emit(ai: a.id, bi: b.id, ci: c.id)\n".into(),
         "kleene" => "stream S = A as a\n    -> all B as b\n    -> C as c\n    .emit(ai: a.id, bi: b.id, ci: c.id)\n".into(),
         "kleene_self" => "stream S = A as a\n    -> all B where x > b.x as b\n    -> C as c\n    .emit(ai: a.id, bi: b.id, ci: c.id)\n".into(),
         "neg" => "stream S = A as a\n    -> B as b\n    .not(N)\n    .emit(ai: a.id, bi: b.id)\n".into(),
@@ -41,14 +43,21 @@ fn fmt(ev: &Event) -> String {
 
 enum Op { Ev(Event), Wm(String, i64) }
 
-fn ops_of(stream: &[J]) -> Vec<Op> {
+fn ops_of(stream: &[J], repeat_b: usize) -> Vec<Op> {
     let mut t = 0i64;
-    stream.iter().enumerate().map(|(i, e)| {
+    let mut id = 0i64;
+    let mut out = vec![];
+    for e in stream {
         t += e["dt"].as_i64().unwrap();
         let ts = t0() + Duration::seconds(t);
-        if e["op"] == "wm" { Op::Wm("A".into(), ts.timestamp_millis()) }
-        else { Op::Ev(Event::new(e["type"].as_str().unwrap()).with_field("id", (i + 1) as i64).with_field("k", e["k"].as_i64().unwrap()).with_field("x", e["x"].as_i64().unwrap()).with_timestamp(ts)) }
-    }).collect()
+        if e["op"] == "wm" { out.push(Op::Wm("A".into(), ts.timestamp_millis())); continue; }
+        let n = if e["type"] == "B" { repeat_b } else { 1 };
+        for _ in 0..n {
+            id += 1;
+            out.push(Op::Ev(Event::new(e["type"].as_str().unwrap()).with_field("id", id).with_field("k", e["k"].as_i64().unwrap()).with_field("x", e["x"].as_i64().unwrap()).with_timestamp(ts)));
+        }
+    }
+    out
 }
 
 fn run_cut(rt: &tokio::runtime::Runtime, src: &str, ops: &[Op], cut: Option<usize>) -> Result<Vec<String>, String> {
@@ -96,7 +105,7 @@ pub fn replay(args: &[String]) {
         let cls = c["cls"].as_str().unwrap();
         let src = program(cls, c["par"]["d"].as_i64().unwrap(), c["par"]["s"].as_i64().unwrap());
         let stream = c["stream"].as_array().unwrap();
-        let ops = ops_of(stream);
+        let ops = ops_of(stream, if cls == "kleene_long" { 8 } else { 1 });
         let small = json!({"program": src, "stream": stream});
         let base = match run_cut(&rt, &src, &ops, None) {
             Ok(b) => b,
